@@ -415,3 +415,31 @@ CHECKS["C08"] = dict(
         technique="preemption-bounded exhaustive schedule exploration (CHESS-style) of real threads on the real code, with access-hook scheduling points",
         ref="DESIGN.md 3/C08"),
 )
+
+CHECKS["C09"] = dict(
+    level="exploration",
+    jobs=lambda tier: [dict(name="c09o0", variant="o0", sources=["e_c09.c"] + RT, flags=["-DHAVE_CONFIG_H", "-DVH_MALLOC_SEAM", "-DVH_SCAN_STACK=1"], opt="-O0",
+                            # eager binding: the lazy PLT resolver would spill vector registers (register residue, outside the property) onto the scanned stack
+                            libs=["-Wl,-z,now"]),
+                       dict(name="c09o2", variant="o2", sources=["e_c09.c"] + RT, flags=["-DHAVE_CONFIG_H", "-DVH_MALLOC_SEAM", "-DVH_SCAN_STACK=0"])],
+    coverage=_cov("16 methods x outcome kinds {success, method-level failure, forbidden byte, 600-byte phrase, unknown prefix, mmap failure "
+                  "(yescrypt family), undersized crypt_ra block} x phrase lengths {1,7,8,9,16,55,56,64,65,100,128,199,511} (position-distinct "
+                  "8-bit fill) x entry points {crypt_rn, crypt_r, crypt_ra}; each call runs on a dedicated thread with a pre-filled 1 MiB stack "
+                  "under the allocator/mapping seam; after it: internal/reserved/initialized all zero iff the call passed validation, else "
+                  "untouched; no 6-byte window of the phrase in the encodings {raw, UCS-2LE, <<1, xor 0x36, xor 0x5c, byte-swapped 32/64-bit "
+                  "words} in the object, in any block or mapping at release time, in live blocks, or (job on the -O0 build) on the stack; "
+                  "crypt_gensalt*(rbytes==NULL) x 16 prefixes x 3 entry points: the drawn bytes do not survive; 7 primitives x 10 lengths: context "
+                  "all-zero after Final; 108 three-call histories; distinct_nontrivial = distinct clean cases"),
+    assumptions=["registers, -O2 spill slots and kernel copies are outside the property (it names -O0); the stack scan runs on the gcc -O0 build only",
+                 "mappings larger than 1 MiB are scanned in their first and last 256 KiB at munmap time"],
+    nonvacuous=lambda s, t: None if s.get("validated_calls", 0) > 1000 and s.get("rejected_calls", 0) > 100 and s.get("max_stack_used", 0) > 2000 else "too few cases or no stack use observed",
+    deadline=dict(quick=300, thorough=1500),
+    manifest=dict(
+        text="Bounded exhaustive exploration of (method, outcome kind, phrase length, entry point) with memory scanning as the oracle: the data "
+             "object, every heap block and mapping at the moment the library releases it, blocks still live, and the dedicated pre-filled call "
+             "stack of the -O0 build are searched for passphrase material in every encoding the algorithms use; the erase-iff-validated rule is "
+             "checked on pre-dirtied scratch.",
+        note="gcc -O0 and -O2 builds of the working tree; allocator/mapping seam with scan-before-release; 6-byte windows of a position-distinct 8-bit phrase make accidental matches impossible.",
+        technique="exhaustive enumeration of method x outcome x length x entry-point grids on the implementation with memory-residue scanning",
+        ref="DESIGN.md 3/C09"),
+)
